@@ -481,7 +481,9 @@ func (x *Exec) applyContract(st *State, call *ast.CallExpr, key string, c *FuncC
 		st.assume(asTerm(x.evalSpec(envPost, e.E)), "ensures:"+short)
 	}
 	if c.Pure {
-		x.assumeAbstraction(st, preSt, key, sig, recv, args, results)
+		if fo := x.eng.funcObjByKey(key); fo != nil {
+			x.assumeAbstraction(st, preSt, x.eng.fnConst(fo), sig, recv, args, results)
+		}
 	}
 	return results
 }
@@ -573,32 +575,21 @@ func (x *Exec) absArgs(st *State, vals []Value) []Term {
 	return out
 }
 
-func (x *Exec) absSymbol(key string, k int, argTerms []Term, resSort string) string {
-	name := "F_" + symSan.ReplaceAllString(key, "_") + fmt.Sprintf("_%d", k)
-	if x.mode == "U" {
-		name += "_u"
-	}
-	var sorts []string
-	for _, a := range argTerms {
-		sorts = append(sorts, a.Sort)
-	}
-	x.eng.declareFun(name, sorts, resSort)
-	return name
-}
-
-func (x *Exec) assumeAbstraction(st, preSt *State, key string, sig *types.Signature, recv Value, args []Value, results []Value) {
+func (x *Exec) assumeAbstraction(st, preSt *State, fnT Term, sig *types.Signature, recv Value, args []Value, results []Value) {
 	all := args
 	if recv != nil {
+		if _, isStruct := recv.(StructV); isStruct {
+			return // no functional abstraction over struct receivers
+		}
 		all = append([]Value{recv}, args...)
 	}
-	ats := x.absArgs(preSt, all)
+	ats := append([]Term{fnT}, x.absArgs(preSt, all)...)
 	for k, r := range results {
+		prefix := fmt.Sprintf("app%d", k)
 		switch rv := r.(type) {
 		case Scalar:
-			name := x.absSymbol(key, k, ats, rv.T.Sort)
-			st.assume(Eq(rv.T, App(rv.T.Sort, name, ats...)), "abstraction:"+key)
+			st.assume(Eq(rv.T, x.eng.absApp(prefix+"_"+sortTag(rv.T.Sort), ats, rv.T.Sort)), "abstraction")
 		case PtrV:
-			// struct results: per-field abstraction
 			if stt, ok := rv.Elem.Underlying().(*types.Struct); ok {
 				for i := 0; i < stt.NumFields(); i++ {
 					fd := stt.Field(i)
@@ -606,9 +597,8 @@ func (x *Exec) assumeAbstraction(st, preSt *State, key string, sig *types.Signat
 						continue
 					}
 					fs := x.modeSort(scalarSort(fd.Type()))
-					name := x.absSymbol(key+"."+fd.Name(), k, ats, fs)
 					fv := asTerm(x.readField(st, rv, fd.Name()))
-					st.assume(Eq(fv, App(fs, name, ats...)), "abstraction:"+key)
+					st.assume(Eq(fv, x.eng.absApp(prefix+"_"+fd.Name(), ats, fs)), "abstraction")
 				}
 			}
 		}
@@ -648,18 +638,9 @@ func (x *Exec) applyFnAbstraction(st *State, call *ast.CallExpr, fn Term, sig *t
 }
 
 func (x *Exec) constrainApp(st *State, rv Value, rt types.Type, prefix string, ats []Term, allocBefore Term) {
-	sortsOf := func(ts []Term) []string {
-		var s []string
-		for _, t := range ts {
-			s = append(s, t.Sort)
-		}
-		return s
-	}
 	switch v := rv.(type) {
 	case Scalar:
-		name := prefix + "_" + sortTag(v.T.Sort)
-		x.eng.declareFun(name, sortsOf(ats), v.T.Sort)
-		st.assume(Eq(v.T, App(v.T.Sort, name, ats...)), "fn-abstraction")
+		st.assume(Eq(v.T, x.eng.absApp(prefix+"_"+sortTag(v.T.Sort), ats, v.T.Sort)), "fn-abstraction")
 	case PtrV:
 		st.assume(And(Cmp(">=", v.Ref, allocBefore), Neq(v.Ref, Int(0))), "fn-abstraction-fresh")
 		if stt, ok := v.Elem.Underlying().(*types.Struct); ok {
@@ -669,16 +650,12 @@ func (x *Exec) constrainApp(st *State, rv Value, rt types.Type, prefix string, a
 					continue
 				}
 				fs := x.modeSort(scalarSort(fd.Type()))
-				name := prefix + "_" + fd.Name()
-				x.eng.declareFun(name, sortsOf(ats), fs)
-				st.assume(Eq(asTerm(x.readField(st, v, fd.Name())), App(fs, name, ats...)), "fn-abstraction")
+				st.assume(Eq(asTerm(x.readField(st, v, fd.Name())), x.eng.absApp(prefix+"_"+fd.Name(), ats, fs)), "fn-abstraction")
 			}
 		}
 	case SliceV:
 		st.assume(And(Cmp(">=", v.Ref, allocBefore), Eq(v.Off, Int(0))), "fn-abstraction-fresh")
-		lname := prefix + "_len"
-		x.eng.declareFun(lname, sortsOf(ats), SInt)
-		st.assume(Eq(v.Len, App(SInt, lname, ats...)), "fn-abstraction")
+		st.assume(Eq(v.Len, x.eng.absApp(prefix+"_len", ats, SInt)), "fn-abstraction")
 		// elements: pointers to fresh structs whose fields are app_<field>(f, args, idx)
 		if p, ok := v.Elem.Underlying().(*types.Pointer); ok {
 			if stt, ok := p.Elem().Underlying().(*types.Struct); ok {
@@ -694,11 +671,9 @@ func (x *Exec) constrainApp(st *State, rv Value, rt types.Type, prefix string, a
 						continue
 					}
 					fs := x.modeSort(scalarSort(fd.Type()))
-					name := prefix + "_elem_" + fd.Name()
 					ats2 := append(append([]Term{}, ats...), idx)
-					x.eng.declareFun(name, sortsOf(ats2), fs)
 					fh := x.fheap(st, typeName(p.Elem())+"."+fd.Name(), fs)
-					st.assume(Forall([]Term{idx}, Implies(inR, Eq(Select(fh, el), App(fs, name, ats2...))), []Term{el}), "fn-abstraction")
+					st.assume(Forall([]Term{idx}, Implies(inR, Eq(Select(fh, el), x.eng.absApp(prefix+"_elem_"+fd.Name(), ats2, fs))), []Term{el}), "fn-abstraction")
 				}
 			}
 		}
